@@ -1,11 +1,115 @@
 (** C12 — the predictive parser accepts exactly L(G) for LL(1) grammars.
-    Preliminary file (stage 1): a non-vacuity example (including the D12 witness). *)
-From Algo.C12 Require Import Model Spec.
+    Statements only; every proof is [exact]/[apply] of a lemma of C12/Proofs.v.
 
-(** S → t0 : "t0" is accepted, "t0 t0" is rejected because input remains (D12, fixed) *)
+    Model (C12/Model.v, on top of the table of C10/Model.v): [Parse G fuel w] is the Go method
+    [Parse] run on the token list [w] (token = (terminal, lexeme)) with callbacks that record the
+    productions; [ParseAndBuildAST] is the Go method of the same name.  The stack loop runs on
+    fuel: [PHang] means "not finished after [fuel] iterations", and by [C12_fuel_monotone] a
+    finished run is the result for every larger fuel, so "the Go loop returns r" is
+    "[Parse G f w = r] for all large enough [f]".
+    [sentence G w] is [L G (map fst w)] of the shared base; [lm_derives G ps x y] says that
+    applying the productions [ps] in order, each to the leftmost non-terminal, rewrites [x] to [y]. *)
+From Coq Require Import List.
+From Algo.C12 Require Import Model Spec Proofs.
+Import ListNotations.
+
+(** Soundness, for every grammar: if Parse returns no error then the whole token sequence is a
+    sentence and the emitted productions are its leftmost derivation from the start symbol. *)
+Theorem C12_sound :
+  forall (G : gram) (f : nat) (w : list token) (ps : list prod),
+    Parse G f w = PAccept ps ->
+    lm_derives G ps [Nt (start G)] (map Tm (word w)) /\ sentence G w.
+Proof. exact parse_sound. Qed.
+
+(** Hence a string that is not a sentence is never accepted; in particular a proper prefix that
+    is a sentence followed by further tokens is rejected (D12: the loop used to stop as soon as
+    the endmarker was on top of the stack). *)
+Theorem C12_rejects_extra_tokens :
+  forall (G : gram) (f : nat) (w extra : list token) (ps : list prod),
+    ~ sentence G (w ++ extra) -> Parse G f (w ++ extra) <> PAccept ps.
+Proof. intros G f w extra ps. apply parse_rejects_non_sentences. Qed.
+
+(** Completeness and termination on sentences: for a valid grammar whose table is conflict-free
+    every sentence is accepted by every long enough run. *)
+Theorem C12_complete :
+  forall (G : gram), valid G -> forall M : table, BuildParsingTable G = Some (M, false) ->
+    forall w, sentence G w -> exists f0, forall f, f0 <= f -> exists ps, Parse G f w = PAccept ps.
+Proof. exact parse_complete. Qed.
+
+(** Parse returns no error iff the whole sequence is a sentence of G. *)
+Theorem C12_accepts_exactly_L :
+  forall (G : gram), valid G -> forall M : table, BuildParsingTable G = Some (M, false) ->
+    forall w, (exists f ps, Parse G f w = PAccept ps) <-> sentence G w.
+Proof. exact parse_accept_iff. Qed.
+
+(** ParseAndBuildAST gives the verdict of Parse, and on acceptance returns a tree whose yield
+    (terminals with their lexemes, left to right) is the input. *)
+Theorem C12_ast :
+  forall (G : gram) (f : nat) (w : list token),
+    match Parse G f w with
+    | PAccept _ => exists t, ParseAndBuildAST G f w = PAccept (Some t) /\ yield t = w
+    | PReject e _ => ParseAndBuildAST G f w = PReject e None
+    | PTableError => ParseAndBuildAST G f w = PTableError
+    | PPanic => ParseAndBuildAST G f w = PPanic
+    | PHang => ParseAndBuildAST G f w = PHang
+    end.
+Proof. exact ast_verdict. Qed.
+
+Theorem C12_ast_yield :
+  forall (G : gram) (f : nat) (w : list token) (r : option tree),
+    ParseAndBuildAST G f w = PAccept r -> exists t, r = Some t /\ yield t = w.
+Proof. exact ast_sound. Qed.
+
+(** The loop never dereferences a nil production (GetProduction on a non-empty cell). *)
+Theorem C12_no_panic :
+  forall (G : gram), valid G -> forall M : table, BuildParsingTable G = Some (M, false) ->
+    forall f w, Parse G f w <> PPanic.
+Proof. exact parse_no_panic. Qed.
+
+(** A finished run is the result for every larger fuel. *)
+Theorem C12_fuel_monotone :
+  forall (G : gram) (f k : nat) (w : list token),
+    Parse G f w <> PHang -> Parse G (f + k) w = Parse G f w.
+Proof. exact parse_fuel_mono. Qed.
+
+(** Termination.  Full statement: the loop terminates on every token list. *)
+Definition C12_terminates_full : Prop :=
+  forall (G : gram), valid G -> forall M : table, BuildParsingTable G = Some (M, false) ->
+    forall w, exists f0, forall f, f0 <= f -> Parse G f w <> PHang.
+
+(** Proved: termination on every sentence (with acceptance, above), and by [C12_sound] a
+    run on a non-sentence can only end in a rejection.  Missing: that a run on a non-sentence
+    ends at all — this needs the absence of left-recursive expansion cycles under one lookahead
+    in a conflict-free table (also with unproductive non-terminals); the correspondence exercises
+    it with a 20000-step fuel on every rejected input and reports HANG otherwise. *)
+Theorem C12_terminates_partial :
+  forall (G : gram), valid G -> forall M : table, BuildParsingTable G = Some (M, false) ->
+    forall w, sentence G w -> exists f0, forall f, f0 <= f -> Parse G f w <> PHang.
+Proof. exact parse_terminates_on_sentences. Qed.
+
+(** Non-vacuity:  S → t0 accepts "t0" and rejects "t0 t0" (D12, fixed);
+    S → t0 A ; A → t1 A | ε  on  t0 t1 t1. *)
 Example C12_example :
   let G := mkGrammar [0] [0] [mkProd 0 [Tm 0]] 0 in
   Parse G 100 [(0, 0)] = PAccept [mkProd 0 [Tm 0]]
   /\ Parse G 100 [(0, 0); (0, 1)] = PReject EExtraInput [mkProd 0 [Tm 0]]
   /\ ParseAndBuildAST G 100 [(0, 7)] = PAccept (Some (Node 0 (mkProd 0 [Tm 0]) [Leaf 0 7])).
 Proof. vm_compute. repeat split. Qed.
+
+Example C12_example_nullable :
+  let G := mkGrammar [0;1] [0;1] [mkProd 0 [Tm 0; Nt 1]; mkProd 1 [Tm 1; Nt 1]; mkProd 1 []] 0 in
+  Parse G 100 [(0,0); (1,1); (1,2)]
+    = PAccept [mkProd 0 [Tm 0; Nt 1]; mkProd 1 [Tm 1; Nt 1]; mkProd 1 [Tm 1; Nt 1]; mkProd 1 []]
+  /\ Parse G 100 [(0,0); (1,1); (0,2)]
+    = PReject EUnacceptable [mkProd 0 [Tm 0; Nt 1]; mkProd 1 [Tm 1; Nt 1]].
+Proof. vm_compute. repeat split. Qed.
+
+Print Assumptions C12_sound.
+Print Assumptions C12_rejects_extra_tokens.
+Print Assumptions C12_complete.
+Print Assumptions C12_accepts_exactly_L.
+Print Assumptions C12_ast.
+Print Assumptions C12_ast_yield.
+Print Assumptions C12_no_panic.
+Print Assumptions C12_fuel_monotone.
+Print Assumptions C12_terminates_partial.
